@@ -127,20 +127,34 @@ fn queue_file_range(
         let off = range.start + (blkn * bsize);
 
         pool.execute(move || {
-            let copy_result = copy_file_offset(&harc.infd, &harc.outfd, bytes, off as i64);
-            let stat_result = match copy_result {
-                Ok(bytes) => {
-                    stat_tx.send(StatusUpdate::Copied(bytes as u64))
+            // A single copy call may transfer less than requested
+            // (the kernel caps the size of one copy_file_range()),
+            // so repeat until the block is complete or the source
+            // is exhausted (extents can extend past end-of-file).
+            let mut copied: u64 = 0;
+            while copied < bytes {
+                let copy_result = copy_file_offset(&harc.infd, &harc.outfd, bytes - copied, (off + copied) as i64);
+                let (stat_result, finished) = match copy_result {
+                    Ok(0) => {
+                        (Ok(()), true)
+                    }
+                    Ok(n) => {
+                        copied += n as u64;
+                        (stat_tx.send(StatusUpdate::Copied(n as u64)), false)
+                    }
+                    Err(e) => {
+                        error!("Error copying: aborting.");
+                        (stat_tx.send(StatusUpdate::Error(XcpError::CopyError(e.to_string()))), true)
+                    }
+                };
+                if let Err(e) = stat_result {
+                    let msg = format!("Failed to send status update message. This should not happen; aborting. Error: {}", e);
+                    error!("{}", msg);
+                    panic!("{}", msg);
                 }
-                Err(e) => {
-                    error!("Error copying: aborting.");
-                    stat_tx.send(StatusUpdate::Error(XcpError::CopyError(e.to_string())))
+                if finished {
+                    break;
                 }
-            };
-            if let Err(e) = stat_result {
-                let msg = format!("Failed to send status update message. This should not happen; aborting. Error: {}", e);
-                error!("{}", msg);
-                panic!("{}", msg);
             }
         });
     }
